@@ -18,7 +18,7 @@ import (
 func init() {
 	fw.Register(&fw.Check{
 		ID: "C11", Level: "model_checking",
-		Rule:   "accepted documents = closed selections of 1..2 (quick) / 1..3 (thorough) pool blocks; each x every applicable fault (duplicate TYPE/ENUM/MACRO/SERVER/TAG at every top-level position, same method+path twice, same URL path twice, similar paths, second singleton child of each kind, each required parameter omitted, reference to an undefined type / enum / macro / tag in every reference position) x delivery {written directly, through a PASTE of a macro holding the faulty directive, through an INCLUDE of a file holding it}; oracle: rejected, and the diagnostic lies inside the source span of a directive taking part in the fault; non-trivial = every injected fault; distinct = distinct faulty projects",
+		Rule:   "accepted documents = closed selections of 1..2 (quick) / 1..3 (thorough) pool blocks; each x every applicable fault (duplicate TYPE/ENUM/MACRO/SERVER/TAG at every top-level position, same method+path twice, same URL path twice, similar paths, second singleton child of each kind, each required parameter omitted, reference to an undefined type / enum / macro / tag in every reference position) x delivery {written directly, through a PASTE of a macro holding the faulty directive, through an INCLUDE of a file holding it}; oracle: rejected, and the diagnostic lies inside the source span of a directive taking part in the fault; non-trivial = every injected fault; distinct = distinct faulty projects ; E-REFCAT (see C04): on every fixture and pool selection, a duplicate server / type / enum / tag name or a duplicate interaction the reference compiler sees after macro expansion => rejected",
 		Assume: []string{"for duplicates either occurrence is an accepted location; for PASTE / INCLUDE delivery the PASTE / INCLUDE line is accepted as well"},
 		Run:    runC11, QuickCap: 8 * time.Minute, ThoroughCap: 40 * time.Minute,
 	})
@@ -341,6 +341,7 @@ func methodOrURL(kw string) string {
 }
 
 func runC11(c *fw.Ctx) {
+	runRefcat(c, "C11")
 	runFaults(c, "C11:", func(kind string) bool { return !strings.HasPrefix(kind, "schema-error-") })
 }
 
